@@ -5,6 +5,7 @@ import (
 	"encoding/json"
 	"fmt"
 	"sort"
+	"strings"
 	"time"
 
 	"github.com/nautilus/gateway"
@@ -32,13 +33,38 @@ var c05Queries = []string{
 var schedPolicies = []string{"random", "lifo", "fifo", "deep-first", "shallow-first", "calls-first", "push-first", "starve-collector", "starve-collector", "spawn-last", "spawn-last"}
 
 func (c05) Cases(tier string) int {
+	// the last case is the canonical replay of KF-D37
 	switch tier {
 	case "thorough":
-		return 1200
+		return 1200 + 1
 	case "search":
-		return 500
+		return 500 + 1
 	}
-	return 140
+	return 140 + 1
+}
+
+// d37: a gateway in its default configuration with ONE request middleware and a list fan-out, in a process of its
+// own under the race detector: the client library's WithMiddlewares writes the queryer it is called on, executeOneStep
+// calls it for every execution of a step, the executions of a step for the objects of a list run at the same time.
+func d37(c *Ctx) CaseResult {
+	res := CaseResult{ID: "corpus:D37-default-queryers-request-middleware", Key: "D37", Nontrivial: true, Features: []string{"net-twin-child"}}
+	tc := NetTwinCase{Query: `{ allUsers { firstName lastName nick } }`, StoreSeed: 5, ListLen: 24, ReqMws: 1}
+	for try := 0; try < 3; try++ {
+		stdout, stderr, clean := NetProbeChild(tc, 60*time.Second)
+		if clean {
+			continue // no race observed this time (or the harness is built without the race detector)
+		}
+		cl := ClassifyCrash(stderr)
+		what := "a gateway with default (network) queryers and a request middleware: the process died"
+		if !strings.Contains(stderr, "DATA RACE") && !strings.Contains(stderr, "panic") && !strings.Contains(stderr, "fatal error") {
+			// the child ended with failures of the comparison, not with a crash
+			cl = "unclassified"
+			what = "a gateway with default (network) queryers and a request middleware differs from the in-process twin: " + truncate(stdout, 600)
+		}
+		res.Fails = []Failure{{Channel: "crash", Classifier: cl, What: what, Input: tc, Observed: truncate(stderr, 3000)}}
+		return res
+	}
+	return res
 }
 
 func (c05) Rule() string {
@@ -91,6 +117,9 @@ func HTTPErrorsFail(in FedInput, store Store, want []string) *Failure {
 }
 
 func (c05) Run(c *Ctx, i int) CaseResult {
+	if i == (c05{}).Cases(c.Tier)-1 {
+		return d37(c)
+	}
 	r := c.Rand(i + 11000000)
 	var in FedInput
 	if r.Intn(3) != 0 {
@@ -122,6 +151,17 @@ func (c05) Run(c *Ctx, i int) CaseResult {
 			res.Fails = fails
 			return res
 		}
+	}
+	if i%5 == 1 {
+		// the same kind of request through a gateway in its default configuration (the library's network queryers over
+		// an in-process transport), under the race detector like everything here; no request middlewares (KF-D37)
+		tc := NetTwinCase{Query: c05Queries[r.Intn(len(c05Queries))], StoreSeed: 5, ListLen: []int{0, 3, 12, 30}[r.Intn(4)], Cached: r.Intn(2) == 0, Repeat: 1 + r.Intn(3)}
+		if nf := RunNetTwin(tc); len(nf) > 0 {
+			res.Nontrivial = true
+			res.Fails = nf
+			return res
+		}
+		insFeat["net-twin"] = true
 	}
 	ref, err := RunFed(c, in, 8*time.Second)
 	if err != nil {
